@@ -198,6 +198,13 @@ Theorem C16_puback_example :
   rt_quota (s_rt (w_sess (fst (op_poll FUEL ex_inflight)))) = 8.
 Proof. exact puback_example. Qed.
 
+From Minimq Require Import Owed Replay.
+
+(* what the healthy drive puts on the wire: exactly what the queues owed, nothing else *)
+Theorem C16_drive_writes_owed : forall fuel adv w w' pr, Hd w -> NA w -> drive_loop fuel adv w = (w', ODone pr) ->
+  w_wire w' = w_wire w ++ owed (s_ob (w_sess w)).
+Proof. exact drive_loop_wire. Qed.
+
 Print Assumptions C16_poll_never_returns_idle.
 Print Assumptions C16_sent_entries_not_resent.
 Print Assumptions C16_write_step_advances.
@@ -223,3 +230,4 @@ Print Assumptions C16_drive_sends_all.
 Print Assumptions C16_drained_all_sent.
 Print Assumptions C16_healthy_example.
 Print Assumptions C16_poll_sends_all.
+Print Assumptions C16_drive_writes_owed.
